@@ -403,7 +403,7 @@ func parentMain() {
 	}
 	budget := 50 * time.Second
 	if run.Thorough() {
-		budget = 13 * time.Minute
+		budget = 11 * time.Minute
 	}
 	if v, err := strconv.Atoi(os.Getenv("VERIF_C14_BUDGET_S")); err == nil && v > 0 {
 		budget = time.Duration(v) * time.Second // development aid
@@ -512,6 +512,10 @@ func parentMain() {
 				}
 				from := ch.from
 				for from < ch.to {
+					if from > ch.from && time.Now().After(deadline) {
+						atomic.AddInt64(&skipped, ch.to-from) // a worker died mid-chunk after the budget ran out
+						break
+					}
 					if w == nil {
 						var err error
 						if w, err = p.spawn(); err != nil {
@@ -559,11 +563,19 @@ func parentMain() {
 	run.Assume("the scheduler glue between Handshaker and Dispatcher (Accept -> Stat -> Establish -> Start -> AddPeer) is re-stated in the harness; connstate limits and the event loop are not part of this check (C16/C17)")
 	run.Assume("allocation bound: at most 2 MiB allocated while one attacker connection is processed (message cap 32 KiB, pieces of 4 bytes); measured with runtime/metrics, backed by RLIMIT_AS = start size + 1.5 GiB in the worker process")
 	run.Assume("a recording dispatch.Messages wrapper sits between the real Dispatcher and the real Conn and reads piece payload readers in the dispatching goroutine; outgoing dials (Handshaker.Initialize) are not exercised, they share readHandshake/handshakeFromP2PMessage with Accept")
+	run.Assume("determinisation of two kraken-internal races: a synthetic no-op CANCEL_PIECE is handed to the dispatcher's feed loop after every received message as a barrier (so replies are observed before the attacker closes), and after the dispatcher closed a connection later Sends on it return 'conn closed' (Conn.Send itself chooses at random there)")
 	run.Assume("hang detection is a harness watchdog (120 s without progress = harness error), not an oracle")
-	for _, id := range []int64{p.cs.start[0] + 3, p.cs.start[3] + 11, p.cs.start[4] + 40, p.cs.start[5] + 40} {
+	for _, id := range []int64{p.cs.start[0] + 4200, p.cs.start[1] + 300, p.cs.start[3] + 11, p.cs.start[4] + 141, p.cs.start[5] + 40, p.cs.start[6] + 9} {
 		if id < p.cs.total {
 			c := p.cs.get(id)
-			run.Sample(map[string]interface{}{"id": c.ID, "family": c.Family, "victim": c.Victim, "desc": c.Desc})
+			smp := map[string]interface{}{"id": c.ID, "family": c.Family, "victim": c.Victim, "desc": c.Desc}
+			if c.HS != nil {
+				smp["handshake_body_hex"] = fmt.Sprintf("%x", c.HS)
+			}
+			for i, m := range c.Msgs {
+				smp[fmt.Sprintf("frame_%d_hex", i)] = fmt.Sprintf("%x", frame(m))
+			}
+			run.Sample(smp)
 		}
 	}
 	if skipped > 0 {
